@@ -5,7 +5,11 @@
 // NDJSON traces for AuthTrace.tla.
 package authcheck
 
-import "strings"
+import (
+	"strings"
+
+	"golang.org/x/net/idna"
+)
 
 // Sp is a spelling of a user name: U = the user it stands for, V = the variant.
 type Sp struct {
@@ -22,6 +26,43 @@ var base = map[string]string{
 	"ux": "mallory",
 }
 
+// The domain of the e-mail shaped user ub is a per-behaviour parameter (cfg.dom of
+// Auth.tla; the model does not depend on it): "ascii" = example.org, "idn" = an
+// internationalised domain (U-label form; it also contains "ss" so that it has
+// IDNA deviation-character twins).  setDom is called before every behaviour
+// (behaviours run one after the other in a process).
+const (
+	asciiDom = "example.org"
+	idnDom   = "ex\u00e4mple-strasse.org"
+)
+
+var curDom = asciiDom
+
+func setDom(kind string) {
+	switch kind {
+	case "", "ascii":
+		curDom = asciiDom
+	case "idn":
+		curDom = idnDom
+	default:
+		panic("unknown domain kind " + kind)
+	}
+	base["ub"] = base["ua"] + "@" + curDom
+}
+
+// aLabel is the A-label (punycode) spelling of the domain of an address.
+func aLabel(addr string) string {
+	i := strings.LastIndex(addr, "@")
+	if i < 0 {
+		return addr
+	}
+	a, err := idna.ToASCII(addr[i+1:])
+	if err != nil {
+		panic(err)
+	}
+	return addr[:i+1] + a
+}
+
 func spell(canon, v string) string {
 	switch v {
 	case "plain":
@@ -33,6 +74,12 @@ func spell(canon, v string) string {
 	case "wide":
 		// fullwidth z and o in the local part
 		return strings.Replace(canon, "zo", "\uff5a\uff4f", 1)
+	case "alabel":
+		// the domain written as A-labels; only an e-mail aware normalisation
+		// (auth_map_normalize auto) equates it with the U-label form
+		return aLabel(canon)
+	case "alabelup":
+		return strings.ToUpper(aLabel(canon))
 	}
 	return ""
 }
@@ -51,9 +98,46 @@ var patternNames = map[string]string{
 	"pct":    "%",
 }
 
+// names that are nobody's account but contain / resemble an account name: what an
+// unanchored or too lenient user-name map or normalisation would take for the account
+func nearName(v string) (string, bool) {
+	switch v {
+	case "pre_a":
+		return "mal" + base["ua"], true
+	case "suf_a":
+		return base["ua"] + "x", true
+	case "pre_b":
+		return "mal" + base["ub"], true
+	case "suf_b":
+		return base["ub"] + ".evil.example", true
+	case "sharp", "zwnj":
+		// IDNA deviation characters: sharp s is not "ss" and a zero-width non-joiner
+		// is not nothing under IDNA2008, the domain is another one (transitional
+		// / IDNA2003 processing would map it onto the domain of ub)
+		d := curDom
+		if !strings.Contains(d, "ss") {
+			d = "ss." + d // the ASCII domain has no twin: some other domain
+		}
+		i := strings.Index(d, "ss")
+		if v == "sharp" {
+			return base["ua"] + "@" + d[:i] + "\u00df" + d[i+2:], true
+		}
+		return base["ua"] + "@" + d[:i+1] + "\u200c" + d[i+1:], true
+	}
+	return "", false
+}
+
+var nearVariants = []string{"pre_a", "suf_a", "pre_b", "suf_b", "sharp", "zwnj"}
+
 func (s Sp) String() string {
 	if s.U == "ux" {
 		if p, ok := patternNames[s.V]; ok {
+			if s.V == "underb" {
+				return "zo_\u03c3@" + curDom
+			}
+			return p
+		}
+		if p, ok := nearName(s.V); ok {
 			return p
 		}
 	}
@@ -76,17 +160,23 @@ func (s Sp) String() string {
 	panic("unknown spelling " + s.U + "/" + s.V)
 }
 
-var variants = []string{"plain", "upper", "nfd", "wide"}
+var variants = []string{"plain", "upper", "nfd", "wide", "alabel", "alabelup"}
 
 // spellingOf is the inverse of Sp.String by exact string comparison (no
 // normalisation happens in the harness); unknown strings map to ?/?.
 func spellingOf(str string) Sp {
-	for v, p := range patternNames {
-		if p == str {
+	for v := range patternNames {
+		if (Sp{U: "ux", V: v}).String() == str {
 			return Sp{U: "ux", V: v}
 		}
 	}
-	for u, c := range base {
+	for _, v := range nearVariants {
+		if p, _ := nearName(v); p == str {
+			return Sp{U: "ux", V: v}
+		}
+	}
+	for _, u := range []string{"ua", "ub", "ux"} {
+		c := base[u]
 		for _, v := range variants {
 			if spell(c, v) == str {
 				return Sp{U: u, V: v}
@@ -94,7 +184,7 @@ func spellingOf(str string) Sp {
 		}
 	}
 	for u, c := range base {
-		for _, v := range variants {
+		for _, v := range variants[:4] {
 			if t := twin(spell(c, v)); t != spell(c, v) && t == str {
 				return Sp{U: u, V: "fold"}
 			}
@@ -144,6 +234,17 @@ var passwords = map[string]string{
 	"l73":   l72 + "x",                              // 73 bytes, same first 72
 	"long":  l72 + strings.Repeat("Z9", 114),        // 300 bytes, same first 72
 	"long2": l72 + strings.Repeat("Z9", 113) + "Z8", // differs from "long" in the last byte only
+	// pairs of different octet strings that a "helpful" preparation of the password
+	// (RFC 8265 OpaqueString: NFC, non-ASCII space -> space; case folding; width
+	// mapping; trimming) would make equal.  Auth.tla!PwTwins lists the pairs.
+	"nfd":   "pa\u0308sswo\u0308rd-\u4e16\u754c",     // canonical decomposition of "nfc"
+	"nbsp":  "correct\u00a0horse\u3000battery",       // no-break space, ideographic space
+	"sp":    "correct horse battery",                  // the same with ASCII spaces
+	"aup":   "CORRECT HORSE BATTERY STAPLE",           // "a" in upper case
+	"atr":   "correct horse battery staple ",          // "a" followed by a space
+	"bwide": "\uff34r0ub4dor&3",                       // "b" with a full-width T
+	"jamo":  "\u1112\u1161\u11ab-pw",                  // conjoining Hangul jamo (NFC: one syllable)
+	"jamoc": "\ud55c-pw",                              // the composed syllable
 }
 
 func password(id string) string {
